@@ -16,9 +16,9 @@ rm -f "$WT/circuit.r1cs" "$WT/witness.wtns"
 echo "== demo with the change (expect failure)"
 D=$(mktemp -d); ( cd "$D" && SEED_REPO="$WT" PYTHONPATH="$WT:/tmp/seedtools/py" PYSNARK_BACKEND="${SEED_BACKEND:-snarkjs}" QAPTOOLS_BIN=/tmp/seedtools/qaptools-bin timeout 300 /venv/bin/python "$SRC/demo.py" > "$D/out.txt" 2>&1; echo "demo rc=$?"; tail -3 "$D/out.txt" )
 echo "== demo without the change (expect success)"
-git -C "$WT" stash -q
+git -C "$WT" apply -R "$SRC/patch.diff"
 ( cd "$D" && SEED_REPO="$WT" PYTHONPATH="$WT:/tmp/seedtools/py" PYSNARK_BACKEND="${SEED_BACKEND:-snarkjs}" QAPTOOLS_BIN=/tmp/seedtools/qaptools-bin timeout 300 /venv/bin/python "$SRC/demo.py" > "$D/out0.txt" 2>&1; echo "demo rc=$?"; tail -2 "$D/out0.txt" )
-git -C "$WT" stash pop -q
+git -C "$WT" apply "$SRC/patch.diff"
 rm -rf "$D"
 for C in $CHECKS; do
   echo "== check $C against the change"
